@@ -214,5 +214,5 @@ func linkedFromDense(m *hist.Model, path string) bool {
 
 func TestProp(t *testing.T) {
 	_ = indep.KnownDeviations
-	vt.Run(t, prop, vt.Sub[Case]{Prop: prop, Name: "files", Gen: gen, Run: run, Classify: classify}.WithBudget(1200, 15000))
+	vt.Run(t, prop, vt.Sub[Case]{Prop: prop, Name: "files", Gen: gen, Run: run, Classify: classify}.WithBudget(2500, 15000))
 }
